@@ -14,16 +14,19 @@ MODULES = {
     "C12": "h_path",
     "C13": "h_walk",
     "C14": "h_glob",
+    "C15": "h_archive",
     "C16": "h_fileobj",
     "C17": "h_route",
     "C01": "h_fs",
     "C03": "h_sandbox",
     "C04": "h_reflect",
     "C18": "h_reflect",
+    "C19": "h_copy",
     "C20": "h_parse",
     "C05": "h_fs",
     "C06": "h_fs",
     "C07": "h_fault",
+    "C08": "h_threads",
     "C09": "h_copier",
     "C10": "h_fs",
     "C11": "h_fs",
